@@ -516,7 +516,7 @@ def check_property(pid, tier, jobs):
                 n, r["status"], r.get("wall_s", 0.0), st.get("steps"), st.get("vccs"), st.get("solver_s"),
                 " (memo)" if r.get("memo_hit") else ""))
     known = load_known()
-    violations, inconclusive, known_hits = [], [], []
+    violations, inconclusive, known_hits, stretch_skipped = [], [], [], []
     for n in names:
         r = results[n]
         spec = registry.HARNESSES[n]
@@ -546,6 +546,10 @@ def check_property(pid, tier, jobs):
                 else:
                     inconclusive.append((n, o["why"]))
             continue
+        if spec.get("stretch") and r["status"] in ("TIMEOUT", "OOM"):
+            # stretch obligation: measured to be at the edge of this machine; not decided in this run, reported, status unaffected
+            stretch_skipped.append((n, r["status"]))
+            continue
         inconclusive.append((n, "%s %s" % (r["status"], (r.get("detail") or "")[-300:].replace("\n", " | "))))
     # known-finding harnesses that passed: the defect is gone; say so (no suppression needed)
     for ent, n in known_hits:
@@ -555,9 +559,12 @@ def check_property(pid, tier, jobs):
         log("  harness=%s check=%r at %s reproduced natively in %s" % (n, o["check"], o["location"], o["profiles"]))
     for n, why in inconclusive:
         log("INCONCLUSIVE property=%s harness=%s: %s" % (pid, n, why))
+    for n, st in stretch_skipped:
+        log("[vcheck] stretch obligation not decided in this run (%s): %s" % (st, n))
     wall = time.time() - t0
     write_evidence(pid, tier, seed, names, results, wall, violations=len(violations),
-                   known=[e["id"] for e, _ in known_hits], inconclusive=[(n, w) for n, w in inconclusive])
+                   known=[e["id"] for e, _ in known_hits], inconclusive=[(n, w) for n, w in inconclusive] +
+                   [(n, "stretch obligation not decided: " + st) for n, st in stretch_skipped])
     if violations:
         return 1
     if inconclusive:
